@@ -75,6 +75,8 @@ def model_to_job(res, ob, idx):
             for gk, gv in v.items():
                 g[gk] = float(eval_frac(gv)) if isinstance(gv, dict) else gv
             job["ghost"] = g
+        elif k == "$glob":
+            job["globs"] = {n: (x.get("$map") if isinstance(x, dict) else x) for n, x in v.items()}
         else:
             job["params"][k] = v
     return job
@@ -307,9 +309,19 @@ def main(argv=None):
     if native_err:
         print(f"CHECKER-DEFECT property={pid}: {native_err}")
         return 3
+    # one line per (unit, clause): kind variants of the same failing clause are grouped, a variant whose
+    # counterexample replays on the real code is preferred as the representative
+    groups = {}
     for o, path, confirmed in violations:
+        key = (o["name"].split("[")[0], clause_of(o["name"]))
+        cur = groups.get(key)
+        if cur is None or (confirmed and not cur[2]):
+            groups[key] = (o, path, confirmed, (cur[3] if cur else 0) + 1)
+        else:
+            groups[key] = (cur[0], cur[1], cur[2], cur[3] + 1)
+    for (unit, clause), (o, path, confirmed, n) in groups.items():
         tail = "" if confirmed else " no-failing-input-found"
-        print(f"VIOLATION property={pid} replay={path} obligation={o['name']}{tail}")
+        print(f"VIOLATION property={pid} replay={path} obligation={o['name']} variants={n}{tail}")
         rc = 1
     if rc:
         return rc
